@@ -64,6 +64,10 @@ claimed = {
    text="Partial, stated as such: the part of 'matches are found at every byte offset' that is a property of the search structure is proved on the real code for every signature: SendFiles sorts the targets by tag and builds, per file, a fresh tag table that maps every occurring tag to the first index of its run and nothing else (loop invariant over the map model, sort.Slice contract with the real comparator); hashSearch starts its scan at that index and leaves the scan only when the run is exhausted (loop-exit clause on every edge into the loop's successor block; a match leaves through the tail that is not part of the loop) - hence every signature block whose tag equals the window's tag is compared at every offset (call-site assertion 'no candidate outside the scan'); together with C02's invariant that the window examined at offset o is the file range [o, o+k) and that offsets advance by one between matches.",
    note="NOT covered: the rolling update of s1/s2 (that the tag looked up at an offset is the weak checksum of the window there; 32-bit multiplicative arithmetic) and the quantitative bound on literal bytes; these remain assumptions. Trusted: sort.Slice for a strict weak order.",
    design="4.16"),
+ "C01": dict(
+   text="Partial, stated as such: C01 is a whole-session theorem; this check machine-checks the links of its chain that no other check owns, on the real code and for all inputs: (1) both ends number the files alike - the sender sorts its list by wire name before it answers requests by index (precondition of SendFiles proved in Do through the sort.Slice contract with the real comparator) and the receiver sorts its copy by the same key (sortFileList, ReceiveFileList); (2) transfers of static files do not fail spuriously - every window request inside the file succeeds and returns exactly the file's bytes (ptr: succeeds/content, replay for failures), literal runs and hashed ranges tile the file (matched, simpleSendToken), sendFile sends the whole file as consecutive ranges up to its size. The other links are the claims of C02 (delta codec both ways), C03 (only checksum-verified data is renamed into place), C12 (update rule); two defects on this chain were found and fixed (window past EOF, empty-source panic).",
+   note="The composition of the links into 'every selected file ends byte-identical' over a whole session, role arrangements, path mapping of source arguments and the file-list encoding (C15, not claimed) are NOT machine-checked. Trusted: sort.Slice, static source tree.",
+   design="4.1"),
 }
 not_yet = "check not built yet in this session (work in progress; see DESIGN.md for the planned contract)"
 na = {"C18": "liveness under all schedules / deadlock freedom / data-race freedom are whole-history and concurrency properties; per-function pre/postconditions over sequential SSA cannot express them and govc has no model of goroutines or channels (DESIGN.md §4.18)"}
